@@ -353,6 +353,9 @@ def _run_one(prog: Program, report: Report, g) -> int:
                 full = canon(v.res.expr(e, 6)) == canon(v.res.expr(want_ast, 6))
                 if want in gots or full or _equal_modulo_rename(v, want_ast, cands, canon) or _same_constant(e, want_ast):
                     report.ob(g.rule, g.fn, f"{g.why.split(';')[0]}: `{one_line(e)[:70]}` = {want}")
+                elif _dropped_arm(v, want_ast, gots, canon) is not None:
+                    c_, arm = _dropped_arm(v, want_ast, gots, canon)
+                    report.violate(g.rule, v.fn, t, f"{g.why.split(';')[0]}: {one_line(t)[:100]}", f"{g.why}; the documented value is `{want}`, the expression is only its `{arm}` arm and the function no longer tests `{c_}` anywhere: the other case was dropped", what=f"/{g.target}/ = {want}")
                 elif not any(kind_of(c) == kind_of(want_ast) for c in cands):
                     # a different construct: unrecognised idiom for this target only (other targets are still judged)
                     msg = f"{g.rule}: {g.fn}: `{one_line(e)[:60]}` is a different construct than the documented formula `{want[:60]}` (unrecognised idiom)"
@@ -465,6 +468,42 @@ def _new_in(v: FnView, e: ast.expr) -> list[str]:
 
     nn = new_names(v)
     return sorted({n.id for n in ast.walk(e) if isinstance(n, ast.Name) and n.id in nn})
+
+
+def _dropped_arm(v: FnView, want_ast: ast.expr, gots: list[str], canon):  # noqa: ANN201
+    """The documented value is `A if c else B`, the expression is exactly A or exactly B, and no test of the
+    function (statement or expression level) mentions what `c` compares: the case distinction is gone, not
+    moved.  -> (condition text, arm name) or None."""
+    if not isinstance(want_ast, ast.IfExp):
+        return None
+    arms = {canon(want_ast.body): "then", canon(want_ast.orelse): "else"}
+    if len(arms) != 2:
+        return None
+    arm = next((arms[g_] for g_ in gots if g_ in arms), None)
+    if arm is None:
+        return None
+    cond = canon(want_ast.test)
+    ctext = {cond, canon(ast.UnaryOp(op=ast.Not(), operand=want_ast.test))}
+    tests: list[ast.expr] = []
+    for n_ in walk_own(v.fn.node):
+        if isinstance(n_, (ast.If, ast.While, ast.IfExp, ast.Assert)):
+            tests.append(n_.test)
+        elif isinstance(n_, ast.BoolOp):
+            tests.extend(n_.values)
+        elif isinstance(n_, ast.comprehension):
+            tests.extend(n_.ifs)
+    for t_ in tests:
+        for sub in ast.walk(t_):
+            if isinstance(sub, ast.expr) and canon(sub) in ctext:
+                return None
+    # the operands of the condition: if a test still compares the same two things some other way, decline
+    if isinstance(want_ast.test, ast.Compare) and len(want_ast.test.ops) == 1:
+        a_, b_ = canon(want_ast.test.left), canon(want_ast.test.comparators[0])
+        for t_ in tests:
+            for sub in ast.walk(t_):
+                if isinstance(sub, ast.Compare) and len(sub.ops) == 1 and {canon(sub.left), canon(sub.comparators[0])} == {a_, b_}:
+                    return None
+    return cond, arm
 
 
 def _renamed_new(v: FnView, want_ast: ast.expr, e: ast.expr, canon) -> bool:
